@@ -12,14 +12,14 @@ NOTE = ("Trusted: Kani's translation of MIR and CBMC's bit-precise semantics; de
 CLAIMED = {
  "C01": ("2.C01", "Totality (no panic, no overflow in a checked build, bounded loops via unwinding assertions) of the parsing units the property names, for every input within each harness's bound; not the composed decoder."),
  "C02": ("2.C02", "Kani pointer/validity checks over the real unsafe blocks of jxl-grid subgrids and the bitstream refill for all shapes within bounds, plus disjointness/cover of split and into_groups; SIMD kernels outside."),
- "C03": ("2.C03", "Sample-arithmetic units of lossless Modular decoding (predictors and properties through the real incremental state, inverse RCT for all types and permutations, inverse squeeze, sample ops) decided against transcriptions of ISO/IEC 18181-1 Annex H: equality with the exact formulas and decode(encode(x)) == x for all values within bounds; not the composed image decoder."),
+ "C03": ("2.C03", "Sample-arithmetic units of lossless Modular decoding (predictors and properties through the real incremental state, inverse RCT for all types and permutations, inverse squeeze, implicit palette entries at every integer depth, sample ops) decided against transcriptions of ISO/IEC 18181-1 Annex H: equality with the exact formulas and decode(encode(x)) == x for all values within bounds; not the composed image decoder."),
  "C12": ("2.C12", "Narrow (i16) and wide (i32) scalar kernels (tendency, inverse squeeze h/v, RCT, sample ops) produce identical samples for all inputs under the semantic '16 bits suffice' precondition (12 bits + sign); SIMD drivers outside."),
  "C04": ("2.C04", "Units of the entropy decoder against the format: hybrid-integer configuration parsing and value expansion as the exact inverse of the reference encoder for every configuration and every u32, field widths, ANS/prefix table units where tractable; not whole streams."),
  "C05": ("2.C05", "Region algebra used by frame composition (intersection, merge, contains, translate) decided against set semantics for all rectangles within the format's coordinate limits; blend kernels: see evidence (float kernels where tractable)."),
  "C06": ("2.C06", "Integer geometry that makes region-of-interest rendering sound: every resampling/padding/alignment step and the composed padding of the colour stage contain the dependency footprint of every requested pixel, for all rectangles and stage selections within bounds; group partition of the sample grid. Pixel equality of renders is outside."),
- "C15": ("2.C15", "Orientation maps of the interleaved frame buffer and of the sample stream against the specification's map for all 8 orientations and partly-outside copy regions, equality of stream and buffer, and the integer output conversions (rounding, clamping, 8/16-bit fast paths) for every sample value; on 3x2 pixels."),
+ "C15": ("2.C15", "Orientation maps of the interleaved frame buffer and of the sample stream against the specification's map for all 8 orientations and partly-outside copy regions, equality of stream and buffer, and the integer output conversions (rounding, clamping, 8/16-bit fast paths over 32-bit and 16-bit grids) for every sample value; on 3x2 pixels."),
  "C16": ("2.C16", "Generic (scalar) path only, small sizes: the real 2-D driver dct_2d_generic with the recursive 1-D kernels is run on unit impulses of 1x4, 1x8 and 4x4 blocks (quick), 1x8 with the forward round trip and 8x4/4x8 (thorough) and on the 2x2/2x1 butterflies and compared with the cosine-sum definition evaluated in double precision (table generated from the formula), within 1e-5 absolute per unit coefficient; linearity of the kernels (only +,-,* by constants) carries impulses to blocks up to float rounding, which is not decided. Sizes above 8, non-DCT transforms, LF injection and all x86 vector code are outside."),
- "C17": ("2.C17", "Units of JPEG reconstruction: MSB-first bit packing with 0xFF byte stuffing across buffer flushes equals the T.81 rule for all bit values; canonical Huffman code assignment and lookup failure; APP marker records of hostile reconstruction data are rejected or give total size queries; one baseline block (DC difference of any value below 1024, seven AC zero-run layouts incl. runs of exactly 15, 16 and 17) is coded as T.81 F.1.2 prescribes. Byte-exact whole files, progressive scans and restart intervals are outside."),
+ "C17": ("2.C17", "Units of JPEG reconstruction: MSB-first bit packing with 0xFF byte stuffing across buffer flushes equals the T.81 rule for all bit values; canonical Huffman code assignment and lookup failure, degenerate tables (sentinel only, over-subscribed) build without panic; APP marker records of hostile reconstruction data are rejected or give total size queries; one baseline block (DC difference of any value below 1024, seven AC zero-run layouts incl. runs of exactly 15, 16 and 17) is coded as T.81 F.1.2 prescribes. Byte-exact whole files, progressive scans and restart intervals are outside."),
  "C18": ("2.C18", "Units of ICC decoding against ISO/IEC 18181-1 Annex E: context function (all inputs), header prediction table (all positions and contents), 2- and 4-way shuffles (lengths 1..9; ragged 4-way lengths only where the reading is unambiguous), header-only profiles through decode_icc. Tag-list and main-content command interpreters are outside (experimental harnesses do not finish; finding F06 there was made by reading)."),
  "C09": ("2.C09", "Container level only: the one-step harnesses of C10 are quantified over every buffer length (1..=20 bytes offered from every valid parser state), so a step on a short chunk is specified for every cut of the next bytes: it either reports need-more-data with the bytes it consumed or the same event the long chunk gives up to the cut (finding F01 was exactly a cut-dependent result). Frame::feed_bytes and the JxlImage carry-over are not encoded."),
  "C10": ("2.C10", "One-step functional equivalence of the real container state machine with a reference semantics written from the format rules, from every valid parser state (inductive: successor states are shown valid), for every buffer up to 20 bytes of any length: events, payload extents, consumed bytes, successor state, and rejection of every ill-formed layout."),
